@@ -132,6 +132,26 @@ def check_file(ctx, mods, label, parts, opts):
         want = max((RANKS.index(n) for n in names), default=0)
         if RANKS.index(r.severity.name) != want or ((r.severity.name == "LIKELY_SAFE") != (not names)):
             agg.violation("severity-not-max", f"severity {r.severity.name} but findings {names}", w)
+    # the severity in a report does not depend on the verbosity it was rendered with
+    vpath = os.path.join(ctx.scratch, "c10_verbosity.json")
+    for r0, part in zip(results, parts):
+        for vname in RANKS:
+            if os.path.exists(vpath):
+                os.remove(vpath)
+            try:
+                rv = analysis.check_safety(f.Pickled.load(part), verbosity=getattr(analysis.Severity, vname), json_output_path=vpath)
+                docs = read_json_docs(vpath)
+            except Exception as e:
+                agg.violation(f"face:verbosity-raises:{type(e).__name__}", f"check_safety(verbosity={vname}) raised {e}"[:200], w)
+                break
+            agg.count("verbosity_reports")
+            if rv.severity.name != r0.severity.name or len(docs) != 1 or docs[0].get("severity") != r0.severity.name \
+                    or rv.to_dict(getattr(analysis.Severity, vname)).get("severity") != r0.severity.name:
+                agg.violation("face:report-severity-depends-on-verbosity",
+                              f"with verbosity {vname} the report says {docs[0].get('severity') if docs else None}, verdict is {r0.severity.name}", w)
+                break
+    if os.path.exists(vpath):
+        os.remove(vpath)
     path = os.path.join(ctx.scratch, "c10_input.pkl")
     with open(path, "wb") as fh:
         fh.write(data)
